@@ -21,6 +21,8 @@ pub fn start_election(dbs: &Arc<Databases>) {
     log::info!("Will start election");
     if dbs.count_cluster_members() <= 1 {
         log::info!("Only one node in the cluster, will set as primary");
+        #[cfg(feature = "verif")]
+        crate::verif::event("election_win:single");
         election_win(dbs);
         return;
     }
@@ -44,6 +46,8 @@ pub fn start_election(dbs: &Arc<Databases>) {
 
             if opp.is_none() {
                 log::debug!("No opp registered, will set as primary");
+                #[cfg(feature = "verif")]
+                crate::verif::event("election_win:not_registered");
                 election_win(dbs);
                 return;
             }
@@ -72,6 +76,8 @@ pub fn start_election(dbs: &Arc<Databases>) {
                 opp = dbs.get_pending_opp_copy(id);
                 if start_time > *NUN_ELECTION_TIMEOUT {
                     log::info!("Election timeout, will claim as primary");
+                    #[cfg(feature = "verif")]
+                    crate::verif::event("election_win:timeout");
                     election_win(&dbs);
                     return;
                 }
@@ -82,6 +88,8 @@ pub fn start_election(dbs: &Arc<Databases>) {
             thread::sleep(time::Duration::from_millis(100)); // Will wait for the ack
             if dbs.is_eligible() {
                 log::info!("winning the election");
+                #[cfg(feature = "verif")]
+                crate::verif::event("election_win:acked");
                 election_win(&dbs);
             }
         }
